@@ -7,6 +7,8 @@ from core import MachineryError, Verdict, replay_histories, require_ok, run_tlc,
 
 getcontext().prec = 50
 E_DEC = Decimal(1).exp()
+from decimal import Context  # noqa: E402
+DEC28 = Context(prec=28)
 
 
 class LevelsDriver:
@@ -23,7 +25,7 @@ class LevelsDriver:
         import measured.us as us
         import measured.energy
         from measured import Bel, Neper, Octave
-        logs = {"10": Bel, "e": Neper, "2": Octave}
+        logs = {"10": Bel, "e": Neper, "2": Octave, "3": m.Logarithm(3), "16": m.Logarithm(16)}
         self.log = []
         for f in self.sys["families"]:
             lg = logs[f["base"]]
@@ -45,7 +47,7 @@ class LevelsDriver:
         return {}
 
     def _pow(self, base, e):
-        b = {"10": Decimal(10), "2": Decimal(2), "e": E_DEC}[base]
+        b = {"10": Decimal(10), "2": Decimal(2), "e": E_DEC, "3": Decimal(3), "16": Decimal(16)}[base]
         return (b.ln() * (Decimal(e.numerator) / Decimal(e.denominator))).exp()
 
     def apply(self, ev, ctx, stats):
@@ -63,7 +65,14 @@ class LevelsDriver:
             mm.append(self._mm("power-ratio:%s" % kind, "%s has power_ratio %s, the reference is a %s quantity" % (tag, unit.power_ratio, kind)))
         for where, q in (("reference-unit", float(Decimal(ref.magnitude) * factor) * ref.unit),):
             pass
-        q_ref = float(Decimal(repr(ref.magnitude)) * factor) * ref.unit
+        dec = ev.get("mk") == "Decimal"
+
+        def num(x):
+            """the magnitude in the kind this case is written in (28 significant digits for Decimal)"""
+            return +Decimal(x).normalize(DEC28) if dec else float(x)
+        q_ref = num(Decimal(repr(ref.magnitude)) * factor) * ref.unit
+        if dec:
+            tag += "[Decimal]"
         try:
             q_other = q_ref.in_unit(self.other[ev["r"] - 1])
         except Exception:
@@ -78,7 +87,7 @@ class LevelsDriver:
                 continue
             stats["ok"] = stats.get("ok", 0) + 1
             if abs(float(lv.magnitude) - float(L)) > 1e-9 * abs(float(L)) + 1e-9:
-                mm.append(self._mm("level:value:%s:%s:%s" % (kind, "prefixed-logarithm" if f["pb"] else "plain-logarithm", where),
+                mm.append(self._mm("level:value:%s:%s:%s%s" % (kind, "prefixed-logarithm" if f["pb"] else "plain-logarithm", where, ":decimal" if dec else ""),
                                    "%s: level of %s is %r, the definition gives %s" % (tag, q, lv.magnitude, float(L))))
             try:
                 back = lv.quantify()
@@ -91,11 +100,11 @@ class LevelsDriver:
                 mm.append(self._mm("quantify:raised:%s" % type(ex).__name__, "%s of %s" % (tag, lv)))
         # level -> quantity -> level, starting from the exact level
         try:
-            lv0 = float(L) * unit
+            lv0 = num(Decimal(L.numerator) / Decimal(L.denominator)) * unit
             q0 = lv0.quantify()
             want = float(Decimal(repr(ref.unprefixed().magnitude)) * factor)
             if abs(float(q0.magnitude) - want) > 1e-9 * abs(want):
-                mm.append(self._mm("quantify:value:%s:%s" % (kind, "prefixed-logarithm" if f["pb"] else "plain-logarithm"),
+                mm.append(self._mm("quantify:value:%s:%s%s" % (kind, "prefixed-logarithm" if f["pb"] else "plain-logarithm", ":decimal" if dec else ""),
                                    "%s: %s * unit quantifies to %s, the definition gives %s %s" % (tag, float(L), q0, want, ref.unprefixed().unit)))
             l1 = q0.level(unit)
             if abs(float(l1.magnitude) - float(L)) > 1e-9 * abs(float(L)) + 1e-9:
@@ -105,7 +114,7 @@ class LevelsDriver:
                 mm.append(self._mm("level-equals-its-quantity", "%s: %s == %s is False" % (tag, lv0, q0)))
         except Exception as ex:
             mm.append(self._mm("quantify:raised:%s" % type(ex).__name__, "%s level %s" % (tag, float(L))))
-        ctx.setdefault("seen", {})[(ev["f"], ev["r"], ev["j"])] = True
+        ctx.setdefault("seen", {})[(ev["f"], ev["r"], ev["j"], ev.get("mk"))] = True
         return mm
 
     def _mm(self, key, detail):
@@ -115,7 +124,7 @@ class LevelsDriver:
 def run_c18(tier, seed):
     v = Verdict("C18", tier, seed)
     v.assumptions = ["the definitional structure (k, prefix direction, base, reference normalisation) is decided exactly by TLC; the exponential map base**(j/12) is computed by alpha with 50-digit decimals",
-                     "8 logarithm families x 10 references (power and root-power, prefixed / non-SI) x lattice points j/12, levels within [-200, 200]",
+                     "11 logarithm families (bases 10, e, 2, 3, 16; with and without prefixes) x 13 references (power and root-power, prefixed / non-SI) x lattice points j/12, levels within [-200, 200]",
                      "tolerance 1e-9 relative + 1e-9 absolute on level magnitudes"]
     res = run_tlc("MC_Levels", wd=workdir("tlc_levels"), env={"VERIF_LTIER": 1 if tier == "quick" else 2}, workers=4, timeout=3000)
     require_ok(res, "MC_Levels")
@@ -124,10 +133,10 @@ def run_c18(tier, seed):
     cases = res.exports.get("E", [])
     drv = LevelsDriver(system=system)
     rep = replay_histories([[c] for c in cases], drv, split_depth=1, label="levels_cold")
-    order = sorted(cases, key=lambda c: (c["f"], c["r"], c["j"]))
+    order = sorted(cases, key=lambda c: (c["f"], c["r"], c["j"], c.get("mk", "")))
     chains = {}
     for c in order:
-        chains.setdefault(c["f"] % 8, []).append(c)
+        chains.setdefault(c["f"], []).append(c)
     chains = list(chains.values())
     repw = replay_histories(chains + [list(reversed(ch)) for ch in chains], drv, split_depth=1, label="levels_warm")
     v.impl = rep["n"] + repw["n"]
